@@ -201,8 +201,11 @@ def history_case(ctx, mon, rng, S):
             ops.append(["domain", i, rand_domain(rng)])
         elif r < 0.36:
             ops.append(["range", i, rand_range(rng)])
-        elif r < 0.46:
+        elif r < 0.42:
             ops.append(["clamp", i, rng.random() < 0.5])
+        elif r < 0.46:
+            # the list the scale hands out (or was given) is edited in place and passed to the setter again
+            ops.append([rng.choice(["range-edit-in-place", "domain-edit-in-place"]), i, rng.choice([0, 1]), rand_mag(rng, -3, 6)])
         elif r < 0.72:
             ops.append(["nice", i, rng.choice([None, None, 2, 3, 5, 10, 20, 47])])
         else:
@@ -216,6 +219,7 @@ def history_case(ctx, mon, rng, S):
 def run_history(ctx, mon, S, case):
     ops = case["ops"]
     copied = set()
+    edited = False
     copy_then_mut = False
     v0 = mon.n_violations
     probs = []
@@ -228,6 +232,13 @@ def run_history(ctx, mon, S, case):
                 o.domain(op[2])
             elif op[0] == "range":
                 o.range(tuple(op[2]) if hash(repr(op[2])) % 5 == 0 else list(op[2]))
+            elif op[0] in ("range-edit-in-place", "domain-edit-in-place"):
+                acc = o.range if op[0].startswith("range") else o.domain
+                lst = acc()
+                if isinstance(lst, list) and lst[1 - op[2]] != op[3]:
+                    lst[op[2]] = op[3]
+                    acc(lst)
+                    edited = True
             elif op[0] == "clamp":
                 o.clamp(op[2])
             elif op[0] == "nice":
@@ -252,6 +263,8 @@ def run_history(ctx, mon, S, case):
     except Exception as e:
         probs.append("raised %s: %s" % (type(e).__name__, e))
     stratum = "history-copy-then-nice" if copy_then_mut else "history"
+    if edited:
+        ctx.path("list-edited-in-place-and-set-again")
     if mon.n_violations > v0:
         vs = mon.violations[-(mon.n_violations - v0):][:4]
         ctx.judge(stratum, VIOLATED, case, finding=vs + probs, key="history:" + (vs[0]["kind"] if vs else "monitor"))
